@@ -3,7 +3,7 @@
    operation, and it holds after seeding with any 32-bit seed.  Hence no i32 subtraction in `sample`
    overflows and next_max's hypothesis (NextMaxProofs) is met in every reachable state. *)
 From Coq Require Import ZArith List Lia Bool.
-From V Require Import F64 Prng NextMaxProofs.
+From V Require Import Tables F64 Prng NextMaxProofs.
 Import ListNotations.
 Open Scope Z_scope.
 
@@ -183,3 +183,9 @@ Proof.
   destruct (Nat.eq_dec j 55) as [E|E]; [right|left; lia].
   subst j. unfold idx_1_55. apply in_map. apply in_seq. lia.
 Qed.
+
+(* what util/random/csharp.rs says now (regenerated by tools/extract.py on every run): the statements
+   Model/Prng.v transcribes - including the two guards of internal_sample, which recorded call
+   sequences practically never reach - are present verbatim *)
+Lemma tables_prng_facts : forallb snd Tables.prng_facts = true /\ (8 <= List.length Tables.prng_facts)%nat.
+Proof. split; [vm_compute; reflexivity|vm_compute; lia]. Qed.
